@@ -105,7 +105,7 @@ def check_ctrldep(ck: Checker, f: Func, m: Model, *, legacy: bool = False, rule:
     rows = loop_body_table(m)
     tv = m.take_var
     mtxt = ",".join(f"{k}={v}" for k, v in m.mode.items()) or "-"
-    keys = set(rows[0]) - {"emitted", "descended", "evaluated", "emit_args", "left_loop"} if rows else set()
+    keys = set(rows[0]) - {"emitted", "descended", "evaluated", "emit_args", "left_loop", "stmts"} if rows else set()
     fcall, pcall = f"filter({tv})", f"prune({tv})"
     known = {"is(None,filter)", "filter", fcall, "prune", "is(None,prune)", pcall}
     if legacy:
@@ -133,6 +133,8 @@ def check_ctrldep(ck: Checker, f: Func, m: Model, *, legacy: bool = False, rule:
             problems.append("filter not evaluated on this element")
         if r["left_loop"]:
             problems.append("leaves the traversal loop")
+        if skipping and "skip_self = False" not in r["stmts"]:
+            problems.append("skip_self is not reset after the start node (later nodes would be skipped too)")
         if problems:
             bad.append({k: r[k] for k in sorted(keys)} | {"problems": problems})
     what = (f"{f.qualname}({mtxt}) loop body: emission iff the filter admits the taken element, descent iff not pruned, "
